@@ -1379,6 +1379,15 @@ def catalog(n=6):
     ("ipv4-udp-vxlan", [_eth(), _ip4(), {"t": "udp"}, {"t": "vxlan", "vni": 5000}, _eth(type=0x88b5), P]),
     ("ipv6-raw", [_eth(), _ip6(nh=253), P]),
     ("ipv6-nonext", [_eth(), _ip6(nh=59), NOPAY]),
+    # extension headers that end exactly where the packet ends: chain closed by No Next Header, or followed by zero payload bytes
+    ("ipv6-hbh-nonext", [_eth(), _ip6(nh=59, ext=[{"k": 0, "body": b"\x01\x04\0\0\0\0"}]), NOPAY]),
+    ("ipv6-rt-nonext", [_eth(), _ip6(nh=59, ext=[{"k": 43, "body": b"\x00\x00\0\0\0\0"}]), NOPAY]),
+    ("ipv6-dst-nonext", [_eth(), _ip6(nh=59, ext=[{"k": 60, "body": b"\x01\x0c" + b"\0" * 12}]), NOPAY]),
+    ("ipv6-frag-nonext", [_eth(), _ip6(nh=59, ext=[{"k": 44, "body": b"\x00\x00\x00\x00\x00\x00\x02"}]), NOPAY]),
+    ("ipv6-chain-nonext", [_eth(), _ip6(nh=59, ext=[{"k": 0, "body": b"\x01\x04\0\0\0\0"}, {"k": 60, "body": b"\x01\x04\0\0\0\0"},
+                                                  {"k": 43, "body": b"\0" * 14}, {"k": 60, "body": b"\x01\x04\0\0\0\0"}]), NOPAY]),
+    ("ipv6-dst-raw", [_eth(), _ip6(nh=253, ext=[{"k": 60, "body": b"\x01\x04\0\0\0\0"}]), P]),
+    ("ipv6-hbh-rt-raw", [_eth(), _ip6(nh=253, ext=[{"k": 0, "body": b"\x01\x04\0\0\0\0"}, {"k": 43, "body": b"\0" * 6}]), P]),
     ("ipv6-udp", [_eth(), _ip6(), {"t": "udp"}, P]),
     ("ipv6-tcp", [_eth(), _ip6(), {"t": "tcp", "opts": [{"k": "mss", "v": 1440}]}, P]),
     ("ipv6-hbh-udp", [_eth(), _ip6(ext=[{"k": 0, "body": b"\x01\x04\0\0\0\0"}]), {"t": "udp"}, P]),
